@@ -90,10 +90,8 @@ def shrink(case, sig, scratch, counter):
         try:
             ast.parse(c["sut"])
             counter[0] += 1
-            c = dict(c, name=f"{case['name']}s{counter[0]}")
-            c["ignore_methods"] = [m.replace(case["name"] + ".", c["name"] + ".") for m in case["ignore_methods"]]
-            obs, _ = L.run_impl(c, scratch)
-            return any(s == sig for s, _ in L.judge(c, obs))
+            obs, _, rt = L.run_impl(c, scratch)
+            return any(s == sig for s, _ in L.judge(c, obs, rt))
         except Exception:
             return False
 
@@ -181,9 +179,10 @@ def run(ctx: vlib.Ctx):
         cases.append(L.gen_case(ctx.rng, k))
     coq_cases, recs, seen_sigs, n_fail = [], [], set(), 0
     counter = [0]
+    known = vlib.load_findings("C27")
     for case in cases:
         try:
-            observed, members = L.run_impl(case, scratch)
+            observed, members, rt = L.run_impl(case, scratch)
         except Exception as e:
             ctx.fail(f"analysis-crash:{type(e).__name__}", f"generate_test_cluster failed: {type(e).__name__}: {e}", {"case": case})
             continue
@@ -197,12 +196,13 @@ def run(ctx: vlib.Ctx):
         if len(ctx.cov["samples"]) < 2 and case not in [c["case"] for c in corpus]:
             ctx.sample({"sut": case["sut"], "visibility": case["visibility"], "ignore_methods": case["ignore_methods"],
                         "under_test": [list(e[:4]) for e in observed]})
-        for sig, msg in L.judge(case, observed):
+        for sig, msg in L.judge(case, observed, rt):
             n_fail += 1
             if sig in seen_sigs:
                 continue
             seen_sigs.add(sig)
-            small = shrink(case, sig, scratch, counter)
+            # recorded findings are reported with the unshrunk input (shrinking costs many analyses)
+            small = case if vlib.match_finding(known, sig) else shrink(case, sig, scratch, counter)
             ctx.fail(sig, msg, {"case": small, "unshrunk": case})
         coq_cases.append(c_case(case, observed, members))
         recs.append((case, observed, members))
@@ -252,10 +252,10 @@ def replay(ctx, path):
                                               f"is_name_mangled {cname(rp['name'])}, map (should_skip {cname(rp['name'])} true) [PUBLIC; PROTECTED; ALL])"))
         return 0
     case = rp["case"]
-    observed, members = L.run_impl(case, ctx.mkscratch())
+    observed, members, rt = L.run_impl(case, ctx.mkscratch())
     print(case["sut"])
     print("visibility", case["visibility"], "ignore_methods", case["ignore_methods"])
     print("under test:", observed)
-    print("oracle:", L.judge(case, observed))
+    print("oracle:", L.judge(case, observed, rt))
     print("model agrees:", ctx.coq_eval(IMPORTS, "check_case " + c_case(case, observed, members)))
     return 0
